@@ -54,6 +54,34 @@ def have_fam(fam):
 
 
 # ------------------------------------------------------------------------------------------ L2 properties
+def spec_generated_inputs(c, fams, seed):
+    """Inputs that TLC constructs from the L2 modules so that an internal state of the cipher takes a chosen value
+    (spec/gen): BelT blocks whose Lai-Massey word e is 0 / ~0 / 1 / 2^31 in a chosen round (both directions), Kuznyechik
+    keys whose round-key pairs are equal, share an aligned 32-bit word, or contain a zero / all-ones key.
+    Returns the path of the inputs file for the conf driver (None if no generator exists for these families)."""
+    lines = []
+    if "Belt" in fams:
+        for g in tlc.generate_inputs("Gen_Belt", seed, os.path.join(c.work, "gen-belt")):
+            lines.append({"type": "BeltBlock", "key": g["key"], "enc": [g["enc_block"]], "dec": [g["dec_block"]]})
+    if "Kuznyechik" in fams:
+        rnd = __import__("random").Random(seed)
+        for g in tlc.generate_inputs("Gen_Kuznyechik", seed, os.path.join(c.work, "gen-kuz")):
+            blocks = [[rnd.randrange(256) for _ in range(16)] for _ in range(2)]
+            for ty in ("Kuznyechik", "KuznyechikEnc", "KuznyechikDec"):
+                lines.append({"type": ty, "key": g["key"], "enc": blocks[:1], "dec": blocks[1:]})
+    if not lines:
+        return None
+    path = os.path.join(c.work, "spec-inputs-" + "-".join(sorted(fams)) + ".ndjson")
+    # group by type: one run per type in the driver
+    lines.sort(key=lambda l: l["type"])
+    with open(path, "w") as f:
+        for l in lines:
+            f.write(json.dumps(l) + "\n")
+    c.notes.setdefault("spec_generated_inputs", 0)
+    c.notes["spec_generated_inputs"] += len(lines)
+    return path
+
+
 def conformance(pid, tier, seed):
     c = Check(pid, tier, seed)
     fams = L2_FAMS[pid]
@@ -87,6 +115,9 @@ def conformance(pid, tier, seed):
         if fam == "Idea":
             # the inverse mod 2^16 + 1 behind the decryption subkeys: a seeded slice of its domain per run, all of it when thorough
             kw["sweep16"] = 65536 if thorough else 4096
+        gen_path = spec_generated_inputs(c, {fam}, seed)
+        if gen_path:
+            kw["inputs"] = gen_path
         evs = []
         for i, (cfg_id, extra) in enumerate(cfgs):
             k = dict(kw)
@@ -202,6 +233,11 @@ def c01(tier, seed):
         kw.update(extra)
         evs += renumber(c.drive(cfg_id, "roundtrip", **kw), i * 10_000_000)
     c.validate(evs, API_MOD, API_CFG, "rt", what="round trip")
+    gen_path = spec_generated_inputs(c, {"Belt", "Kuznyechik"}, seed)
+    ge = []
+    for i, cfg_id in enumerate(("default", "kuz-soft", "kuz-compact", "native")):
+        ge += renumber(c.drive(cfg_id, "roundtrip", family="Belt,Kuznyechik", inputs=gen_path, only_inputs=1), i * 10_000_000)
+    c.validate(ge, API_MOD, API_CFG, "rt-gen", what="round trip on specification-generated inputs")
     wb = c.drive("default", "wblock", minlen=32, maxlen=96 if not thorough else 200, extra=4 if not thorough else 30, keys=2,
                  big=3 if not thorough else 12)
     c.validate(wb, API_MOD, API_CFG, "rt-wblock", what="wblock round trip")
@@ -325,6 +361,12 @@ def c12(tier, seed):
         kw.update(extra)
         sweep += renumber(c.drive(cfg_id, "clones", **kw), (i + 20) * 10_000_000)
     c.validate(sweep, API_MOD, API_CFG, "clones", what="clone/conversion sweep")
+    # Enc / Dec / combined instances on keys whose round keys are in a constructed relation (spec/gen/Gen_Kuznyechik)
+    gen_path = spec_generated_inputs(c, {"Kuznyechik"}, seed)
+    ge = []
+    for i, cfg_id in enumerate(("default", "kuz-soft", "kuz-compact", "native")):
+        ge += renumber(c.drive(cfg_id, "conf", family="Kuznyechik", inputs=gen_path, only_inputs=1), (i + 60) * 10_000_000)
+    c.validate(ge, API_MOD, API_CFG, "gen-kuz", what="Enc/Dec/combined agreement on specification-generated keys")
     rule = ("clone sweep: every Clone type x EVERY accepted key length x {instance, clone, clone of clone, From<&Enc>, From<Enc>, "
             "clone of converted}, observed before and after the source is dropped; all chains of {new(enc|dec|both), From<Enc>, From<&Enc>, clone, clone of converted, drop of source, enc/dec} within the "
             "bound are enumerated by TLC on MC_API; one scenario per transition (shortest path + edge) is replayed for the AES sizes "
